@@ -40,6 +40,10 @@
 #include <sys/personality.h>
 
 #include <theta_sketch.hpp>
+#include <theta_union.hpp>
+#include <theta_intersection.hpp>
+#include <theta_a_not_b.hpp>
+#include <cpc_union.hpp>
 #include <tuple_sketch.hpp>
 #include <array_of_doubles_sketch.hpp>
 #include <hll.hpp>
@@ -153,8 +157,23 @@ template<class V> static Bytes B(const V& v) { return Bytes(v.begin(), v.end());
 // families: builders of images and "use" functions (scalar getters + serialize; DESIGN 6/C11 "Usable")
 // ------------------------------------------------------------------------------------------------------------
 static vt::Rng* g_rng;
+template<class T> static T qitem(int i);   // deterministic item generator (defined with the quantile families)
+template<class S> struct item_of;            // first template argument of a sketch class = its item type
+template<template<class...> class Sk, class T, class... R> struct item_of<Sk<T, R...>> { typedef T type; };
 
 // ---- theta ----
+// "a usable sketch" is really used (results discarded, nothing of it enters the projection digest, so random choices made
+// here cannot turn a Same into a Different): iterate, update / merge / union with a copy, query, re-serialize.  A documented
+// exception is fine (Throw, stage use); a fault is not.
+template<class S> static void exercise_theta(const S& s) {
+  auto u = theta_union::builder().set_lg_k(5).build();
+  u.update(s); u.update(s);
+  auto r = u.get_result();
+  (void)r.get_estimate(); (void)r.serialize();
+  theta_intersection x; x.update(s); x.update(r); (void)x.get_result().get_num_retained();
+  theta_a_not_b anb; (void)anb.compute(s, r).get_num_retained();
+  (void)s.to_string(true);
+}
 template<class S> static std::string use_theta(const S& s) {
   Dig g;
   g.u("empty", s.is_empty()).u("ordered", s.is_ordered()).u("theta", s.get_theta64()).u("n", s.get_num_retained())
@@ -162,6 +181,7 @@ template<class S> static std::string use_theta(const S& s) {
   unsigned long long acc = 0, cnt = 0;
   for (auto it = s.begin(); it != s.end(); ++it) { acc = acc * 1099511628211ULL + (unsigned long long)(*it); cnt++; }
   g.u("ent", acc).u("cnt", cnt);
+  exercise_theta(s);
   return g.s;
 }
 static std::string use_theta_compact(const compact_theta_sketch& s) {
@@ -303,12 +323,25 @@ static void build_tuple(bool) {
 }
 
 // ---- hll ----
+static void exercise_hll(const hll_sketch& s) {
+  const target_hll_type types[] = {HLL_4, HLL_6, HLL_8};
+  for (auto t : types) { hll_sketch c(s, t); (void)c.get_estimate(); (void)c.serialize_compact(); (void)c.serialize_updatable(); }
+  (void)s.to_string(true, true, true, true);                 // iterates every register / coupon, aux map included
+  hll_sketch c(s);
+  for (uint64_t i = 0; i < 40; i++) c.update((uint64_t)(i * 0x9E3779B97F4A7C15ULL + 3));
+  (void)c.get_estimate(); (void)c.serialize_compact(); (void)c.serialize_updatable();
+  const uint8_t lg = s.get_lg_config_k();
+  hll_union u(lg < 4 ? 4 : lg > 21 ? 21 : lg);
+  u.update(s); u.update(c);
+  for (auto t : types) { auto r = u.get_result(t); (void)r.get_estimate(); (void)r.serialize_compact(); }
+}
 static std::string use_hll(const hll_sketch& s) {
   Dig g;
   g.u("lgk", s.get_lg_config_k()).u("type", s.get_target_type()).u("empty", s.is_empty()).u("compact", s.is_compact())
    .d("est", s.get_estimate()).d("cest", s.get_composite_estimate()).d("lb", s.get_lower_bound(1)).d("ub", s.get_upper_bound(1));
   g.bytes("serc", s.serialize_compact());
   g.bytes("seru", s.serialize_updatable());
+  exercise_hll(s);
   return g.s;
 }
 // information length of an UPDATABLE HLL image (layout constants of HllUtil.hpp): the int array of a LIST (from byte 8)
@@ -366,10 +399,21 @@ static void build_hll(bool thorough) {
 }
 
 // ---- cpc ----
+static void exercise_cpc(const cpc_sketch& s) {
+  cpc_sketch c(s);
+  for (uint64_t i = 0; i < 40; i++) c.update((uint64_t)(i * 0x9E3779B97F4A7C15ULL + 3));
+  (void)c.get_estimate(); (void)c.serialize();
+  const uint8_t lg = s.get_lg_k();
+  cpc_union u(lg < 4 ? 4 : lg > 26 ? 26 : lg);
+  u.update(s); u.update(c);
+  auto r = u.get_result(); (void)r.get_estimate(); (void)r.serialize();
+  (void)s.to_string();
+}
 static std::string use_cpc(const cpc_sketch& s) {
   Dig g;
   g.u("lgk", s.get_lg_k()).u("empty", s.is_empty()).d("est", s.get_estimate()).d("lb", s.get_lower_bound(1)).d("ub", s.get_upper_bound(1));
   g.bytes("ser", s.serialize());
+  exercise_cpc(s);
   return g.s;
 }
 static void build_cpc(bool thorough) {
@@ -389,11 +433,24 @@ static void build_cpc(bool thorough) {
 }
 
 // ---- quantile families ----
+template<class S> static void exercise_quant(const S& s) {
+  typedef typename item_of<S>::type T;
+  S c(s);
+  for (int i = 0; i < 12; i++) c.update(qitem<T>(1000 + i));
+  S d(s);
+  c.merge(d);
+  unsigned long cnt = 0;
+  for (auto it = c.begin(); it != c.end(); ++it) cnt += (*it).second > 0;
+  if (!c.is_empty()) { (void)c.get_quantile(0.5); (void)c.get_rank(c.get_min_item()); }
+  if (!s.is_empty()) { (void)s.get_quantile(0.5); (void)s.get_rank(s.get_max_item()); }
+  (void)c.serialize();
+}
 template<class S> static std::string use_quant(const S& s) {
   Dig g;
   g.u("k", s.get_k()).u("n", s.get_n()).u("ret", s.get_num_retained()).u("empty", s.is_empty()).u("em", s.is_estimation_mode());
   if (!s.is_empty()) { dig_item(g, "min", s.get_min_item()); dig_item(g, "max", s.get_max_item()); }
   g.bytes("ser", s.serialize());
+  exercise_quant(s);
   return g.s;
 }
 template<class S> static void add_quant(const std::string& family, const std::string& kind, const Bytes& b, size_t preLen, size_t infoLen = 0) {
@@ -470,10 +527,22 @@ static void build_quant(bool thorough) {
 }
 
 // ---- frequent items ----
+template<class S> static void exercise_fi(const S& s) {
+  typedef typename item_of<S>::type T;
+  S c(s);
+  for (int i = 0; i < 12; i++) c.update(qitem<T>(1000 + i), 2);
+  S d(s);
+  c.merge(d);
+  auto rows = c.get_frequent_items(frequent_items_error_type::NO_FALSE_NEGATIVES);
+  for (auto& r : rows) (void)r.get_estimate();
+  (void)s.get_frequent_items(frequent_items_error_type::NO_FALSE_POSITIVES).size();
+  (void)c.get_estimate(qitem<T>(1)); (void)c.serialize();
+}
 template<class S> static std::string use_fi(const S& s) {
   Dig g;
   g.u("empty", s.is_empty()).u("act", s.get_num_active_items()).u("tw", (unsigned long long)s.get_total_weight()).u("err", (unsigned long long)s.get_maximum_error());
   g.bytes("ser", s.serialize());
+  exercise_fi(s);
   return g.s;
 }
 template<class T> static void build_fi_t(const char* tname, bool) {
@@ -493,10 +562,19 @@ template<class T> static void build_fi_t(const char* tname, bool) {
 
 // ---- count-min ----
 typedef count_min_sketch<uint64_t> cms;
+static void exercise_cm(const cms& s) {
+  cms c(s);
+  for (uint64_t i = 0; i < 12; i++) c.update(i * 31, 2);
+  cms d(s);
+  c.merge(d);
+  (void)c.get_estimate((uint64_t)31); (void)c.get_upper_bound((uint64_t)31); (void)s.get_estimate((uint64_t)62);
+  (void)c.serialize();
+}
 static std::string use_cm(const cms& s) {
   Dig g;
   g.u("nh", s.get_num_hashes()).u("nb", s.get_num_buckets()).u("seed", s.get_seed()).u("tw", s.get_total_weight()).u("empty", s.is_empty());
   g.bytes("ser", s.serialize());
+  exercise_cm(s);
   return g.s;
 }
 static void build_cm(bool thorough) {
@@ -515,11 +593,21 @@ static void build_cm(bool thorough) {
 }
 
 // ---- bloom ----
+static void exercise_bloom(bloom_filter& s) {
+  for (uint64_t i = 0; i < 8; i++) (void)s.query((uint64_t)(i * 13 + 42));
+  if (!s.is_read_only()) {                                  // owned copy or writable wrap: the bits are written through
+    for (uint64_t i = 0; i < 8; i++) s.update((uint64_t)(i * 17 + 5));
+    (void)s.query_and_update((uint64_t)999);
+    if (!s.is_wrapped()) { bloom_filter c(s); s.union_with(c); s.intersect(c); }
+  }
+  (void)s.get_bits_used(); (void)s.serialize();
+}
 static std::string use_bloom(bloom_filter& s) {
   Dig g;
   g.u("empty", s.is_empty()).u("used", s.get_bits_used()).u("cap", s.get_capacity()).u("nh", s.get_num_hashes()).u("seed", s.get_seed())
    .u("ro", s.is_read_only()).u("q", s.query((uint64_t)42));
   g.bytes("ser", s.serialize());
+  exercise_bloom(s);
   return g.s;
 }
 static void build_bloom(bool thorough) {
@@ -543,15 +631,35 @@ static void build_bloom(bool thorough) {
 }
 
 // ---- sampling ----
+template<class S> static void exercise_varopt(const S& s) {
+  typedef typename item_of<S>::type T;
+  S c(s);
+  for (int i = 0; i < 12; i++) c.update(qitem<T>(1000 + i), 1.0 + i);
+  double w = 0; for (auto it = c.begin(); it != c.end(); ++it) w += (*it).second;
+  for (auto it = s.begin(); it != s.end(); ++it) w += (*it).second;
+  (void)c.serialize();
+  var_opt_union<T> u(s.get_k() ? s.get_k() : 1);
+  u.update(s); u.update(c);
+  auto r = u.get_result(); (void)r.get_num_samples(); (void)r.serialize();
+}
 template<class S> static std::string use_varopt(const S& s) {
   Dig g;
   g.u("k", s.get_k()).u("n", s.get_n()).u("ns", s.get_num_samples()).u("empty", s.is_empty());
   g.bytes("ser", s.serialize());
+  exercise_varopt(s);
   return g.s;
+}
+template<class U> static void exercise_vou(const U& u) {
+  U c(u);
+  auto r = c.get_result();
+  double w = 0; for (auto it = r.begin(); it != r.end(); ++it) w += (*it).second;
+  c.update(r);
+  (void)c.get_result().get_num_samples(); (void)c.serialize();
 }
 template<class U> static std::string use_vou(const U& u) {
   Dig g;
   g.bytes("ser", u.serialize());   // the union has no scalar getters; get_result() draws random numbers and is not part of "Usable"
+  exercise_vou(u);
   return g.s;
 }
 template<class T> static void build_varopt_t(const char* tname, bool thorough) {
@@ -581,10 +689,20 @@ template<class T> static void build_varopt_t(const char* tname, bool thorough) {
     });
   }
 }
+template<class S> static void exercise_ebpps(const S& s) {
+  typedef typename item_of<S>::type T;
+  S c(s);
+  for (int i = 0; i < 12; i++) c.update(qitem<T>(1000 + i), 1.0 + i * 0.25);
+  S d(s);
+  c.merge(d);
+  (void)c.get_result().size(); (void)s.get_result().size();
+  (void)c.serialize();
+}
 template<class S> static std::string use_ebpps(const S& s) {
   Dig g;
   g.u("k", s.get_k()).u("n", s.get_n()).d("c", s.get_c()).d("cw", s.get_cumulative_weight()).u("empty", s.is_empty());
   g.bytes("ser", s.serialize());
+  exercise_ebpps(s);
   return g.s;
 }
 template<class T> static void build_ebpps_t(const char* tname, bool thorough) {
@@ -606,12 +724,21 @@ template<class T> static void build_ebpps_t(const char* tname, bool thorough) {
 }
 
 // ---- tdigest ----
+template<class S> static void exercise_td(const S& s) {
+  S c(s);
+  for (int i = 0; i < 12; i++) c.update((typename item_of<S>::type)(i * 3 + 1));
+  S d(s);
+  c.merge(d);
+  if (!c.is_empty()) { (void)c.get_quantile(0.5); (void)c.get_rank(c.get_min_value()); }
+  (void)c.serialize(0, true);
+}
 template<class S> static std::string use_td(const S& s) {
   Dig g;
   g.u("k", s.get_k()).u("tw", s.get_total_weight()).u("empty", s.is_empty());
   if (!s.is_empty()) { g.d("min", s.get_min_value()).d("max", s.get_max_value()); }
   g.bytes("serb", s.serialize(0, true));
   g.bytes("ser", s.serialize());
+  exercise_td(s);
   return g.s;
 }
 static void putbe(Bytes& b, const void* p, size_t n) { const uint8_t* q = (const uint8_t*)p; for (size_t i = 0; i < n; i++) b.push_back(q[n - 1 - i]); }
@@ -649,10 +776,24 @@ template<class T> static void build_td_t(const char* tname, bool thorough) {
 }
 
 // ---- density ----
+template<class S> static void exercise_density(const S& s) {
+  typedef typename item_of<S>::type T;
+  S c(s);
+  if (s.get_dim() <= 64) {
+    std::vector<T> pt(s.get_dim(), (T)1);
+    for (int i = 0; i < 12; i++) { pt[0] = (T)i; c.update(pt); }
+    if (!c.is_empty()) (void)c.get_estimate(pt);
+  }
+  S d(s);
+  c.merge(d);
+  T w = 0; for (auto it = c.begin(); it != c.end(); ++it) w += (*it).second;
+  (void)c.serialize();
+}
 template<class S> static std::string use_density(const S& s) {
   Dig g;
   g.u("k", s.get_k()).u("dim", s.get_dim()).u("n", s.get_n()).u("ret", s.get_num_retained()).u("empty", s.is_empty()).u("em", s.is_estimation_mode());
   g.bytes("ser", s.serialize());
+  exercise_density(s);
   return g.s;
 }
 template<class T> static void build_density_t(const char* tname, bool thorough) {
